@@ -187,6 +187,22 @@ def vkey(v):
     return v
 
 
+def unkey(k):
+    """inverse of vkey for the value kinds that are read back out of atoms (polynomials, tuples, arrays, constructors, structs)"""
+    if isinstance(k, tuple):
+        if len(k) == 2 and k[0] == "P" and isinstance(k[1], Poly):
+            return k[1]
+        if len(k) == 3 and k[0] == "R" and isinstance(k[1], Poly):
+            return Rat(k[1], k[2])
+        if len(k) == 2 and k[0] in ("tuple", "array") and isinstance(k[1], tuple):
+            return (k[0], [unkey(x) for x in k[1]])
+        if len(k) == 3 and k[0] == "ctor" and isinstance(k[2], tuple):
+            return ("ctor", k[1], [unkey(x) for x in k[2]])
+        if len(k) == 3 and k[0] == "struct" and isinstance(k[2], tuple):
+            return ("struct", k[1], {f: unkey(x) for f, x in k[2]})
+    return k
+
+
 def app(fname, *args):
     return Poly.atom(("f", fname) + tuple(vkey(a) for a in args))
 
@@ -773,6 +789,10 @@ class SymEval:
     def e_bin(self, n, env):
         a = self.eval(n["l"], env)
         b = self.eval(n["r"], env)
+        if n["op"] in ("Eq", "Ne") and not (isinstance(a, Poly) and isinstance(b, Poly)):
+            ka, kb = const_key(a), const_key(b)
+            if ka is not None and kb is not None and ANY_PAYLOAD not in repr(ka) + repr(kb):
+                return ("bool", (ka == kb) == (n["op"] == "Eq"))       # two known constants (strings, variants, tuples of them)
         if n.get("ovl") and not (isinstance(a, (Poly, Rat)) and isinstance(b, (Poly, Rat))):
             return app("op_" + n["op"].lower(), a, b)
         # `/` on integer operands truncates, whatever the evaluation mode (a later `as f64` does not undo it)
@@ -868,8 +888,17 @@ class SymEval:
 
     def e_if(self, n, env):
         c = self.eval(n["c"], env)
-        t = self.eval(n["t"], env)
-        e = self.eval(n["e"], env) if "e" in n else ("tuple", [])
+        if isinstance(c, tuple) and len(c) == 2 and c[0] == "bool":
+            # decided condition: only the taken branch is evaluated
+            if c[1]:
+                return self.eval(n["t"], env)
+            return self.eval(n["e"], env) if "e" in n else ("tuple", [])
+        self._sym = getattr(self, "_sym", 0) + 1
+        try:
+            t = self.eval(n["t"], env)
+            e = self.eval(n["e"], env) if "e" in n else ("tuple", [])
+        finally:
+            self._sym -= 1
         return mk_ite(c, t, e)
 
     def opt_arms(self, s, arms_nodes, env, evalfn):
@@ -920,13 +949,17 @@ class SymEval:
                         return self.eval(a["body"], e2)
             raise Unsupported("no arm matches %r" % (s,))
         arms = []
-        for a in n["arms"]:
-            e2 = dict(env)
-            try:
-                self.bind(a["pat"], s, e2)
-            except Unsupported:
-                pass
-            arms.append((repr(pat_key(a["pat"])), self.eval(a["body"], e2)))
+        self._sym = getattr(self, "_sym", 0) + 1
+        try:
+            for a in n["arms"]:
+                e2 = dict(env)
+                try:
+                    self.bind(a["pat"], s, e2)
+                except Unsupported:
+                    pass
+                arms.append((repr(pat_key(a["pat"])), self.eval(a["body"], e2)))
+        finally:
+            self._sym -= 1
         return build_match(s, arms, guarded=any("guard" in a for a in n["arms"]))
 
     def call_fn(self, path, inst, args, n, env):
@@ -950,6 +983,9 @@ class SymEval:
             if name in ("max", "min") and len(args) == 2 and order_of(vkey(args[0])) > order_of(vkey(args[1])):
                 args = [args[1], args[0]]
             return app(name, *args)
+        cs = self.const_search(path, args)
+        if cs is not None:
+            return cs
         if path in ("core::bool::<impl bool>::then_some", "core::bool::<impl bool>::then") and len(args) == 2:
             v = args[1]
             if path.endswith("::then") and isinstance(v, tuple) and v and v[0] in ("closure", "fn"):
@@ -970,6 +1006,56 @@ class SymEval:
         if body is not None and self.depth < self.max_depth and body.hir:
             return self.inline_body(body, args)
         return self.call_opaque(path, args)
+
+    def const_seq(self, v):
+        """the elements of a literal array / slice of it / its iterator, else None"""
+        for _ in range(5):
+            if isinstance(v, tuple) and len(v) == 2 and v[0] == "array" and isinstance(v[1], (list, tuple)):
+                return list(v[1])
+            if isinstance(v, tuple) and len(v) == 2 and v[0] == "iterdesc" and v[1][0] == "elems":
+                v = v[1][1]
+                if isinstance(v, tuple) and len(v) == 2 and v[0] == "P":
+                    v = v[1]
+                continue
+            a = single_atom(v) if isinstance(v, Poly) else None
+            if a and (atom_fn(a) or "").rsplit("::", 1)[-1] in ("iter", "into_iter", "as_slice", "as_ref", "copied", "cloned") and len(atom_args(a)) == 1:
+                v = atom_args(a)[0]
+                continue
+            return None
+        return None
+
+    def const_search(self, path, args):
+        """find / position / any / all / find_map over a literal table with a predicate that folds to constants"""
+        if not path or not path.startswith(("std::iter::Iterator::", "core::iter::")) or len(args) != 2:
+            return None
+        base = path.rsplit("::", 1)[-1]
+        if base not in ("find", "position", "any", "all", "find_map"):
+            return None
+        seq = self.const_seq(args[0])
+        f = args[1]
+        if seq is None or not (isinstance(f, tuple) and f and f[0] in ("closure", "fn")):
+            return None
+        unp = unkey
+        try:
+            for i, el in enumerate(seq):
+                r = self.apply(f, [unp(el)])
+                if base == "find_map":
+                    if isinstance(r, tuple) and len(r) == 3 and r[0] == "ctor" and r[1] == "Some":
+                        return r
+                    if r == ("variant", "None"):
+                        continue
+                    return None
+                if not (isinstance(r, tuple) and len(r) == 2 and r[0] == "bool"):
+                    return None
+                if base in ("find", "position") and r[1]:
+                    return ("ctor", "Some", [unp(el) if base == "find" else num(i)])
+                if base == "any" and r[1]:
+                    return ("bool", True)
+                if base == "all" and not r[1]:
+                    return ("bool", False)
+        except Unsupported:
+            return None
+        return {"find": ("variant", "None"), "position": ("variant", "None"), "find_map": ("variant", "None"), "any": ("bool", False), "all": ("bool", True)}[base]
 
     # -- Option algebra -------------------------------------------------------------------------------------------
     # ("opt", o, v): the optional value that is Some(v) exactly when the opaque option o is Some, and None otherwise.
@@ -1008,6 +1094,37 @@ class SymEval:
                 return ("bool", base == "is_none")
             if isinstance(o, tuple) and len(o) == 3 and o[0] == "ctor" and o[1] == "Some":
                 return ("bool", base == "is_some")
+        # constant options (a known Some(v) / None)
+        k_some = isinstance(o, tuple) and len(o) == 3 and o[0] == "ctor" and o[1] == "Some" and len(o[2]) == 1
+        k_none = o == ("variant", "None")
+        if k_some or k_none:
+            fnl = lambda x: isinstance(x, tuple) and x and x[0] in ("closure", "fn")
+            pv = o[2][0] if k_some else None
+            try:
+                if base == "ok_or" and len(args) == 2:
+                    return ("ctor", "Ok", [pv]) if k_some else ("ctor", "Err", [args[1]])
+                if base == "ok_or_else" and len(args) == 2 and fnl(args[1]):
+                    return ("ctor", "Ok", [pv]) if k_some else ("ctor", "Err", [self.apply(args[1], [])])
+                if base == "unwrap_or" and len(args) == 2:
+                    return pv if k_some else args[1]
+                if base == "unwrap_or_else" and len(args) == 2 and fnl(args[1]):
+                    return pv if k_some else self.apply(args[1], [])
+                if base == "map" and len(args) == 2 and fnl(args[1]):
+                    return ("ctor", "Some", [self.apply(args[1], [pv])]) if k_some else o
+                if base == "map_or" and len(args) == 3 and fnl(args[2]):
+                    return self.apply(args[2], [pv]) if k_some else args[1]
+                if base in ("as_ref", "as_mut", "as_deref", "copied", "cloned") and len(args) == 1:
+                    return o
+                if base == "filter" and len(args) == 2 and fnl(args[1]):
+                    if k_none:
+                        return o
+                    keep = self.apply(args[1], [pv])
+                    if isinstance(keep, tuple) and len(keep) == 2 and keep[0] == "bool":
+                        return o if keep[1] else ("variant", "None")
+                    return None
+            except Unsupported:
+                return None
+            return None
         if not is_opt and not isinstance(o, Poly):
             return None
         src, val = (o[1], o[2]) if is_opt else (o, app("payload0", o))
@@ -1041,6 +1158,8 @@ class SymEval:
         self.depth += 1
         saved, self._blk = getattr(self, "_blk", 0), 0
         try:
+            if type(self).e_ret is SymEval.e_ret:
+                return self.eval_fn(body, e2)
             return self.eval(body.value, e2)
         finally:
             self.depth -= 1
@@ -1094,10 +1213,36 @@ class SymEval:
         return r
 
     def e_ret(self, n, env):
+        # on a path decided by constants alone (no symbolic branch is open) a `return` simply ends the function with that value
+        if getattr(self, "_sym", 0) == 0 and getattr(self, "_fn_depth", 0) > 0:
+            raise FnReturn(self.eval(n["e"], env) if n.get("e") is not None else ("tuple", []))
         raise Unsupported("return at %s" % n.get("sp"))
 
+    def eval_fn(self, body, env):
+        """value of a function body (an early `return` on a constant-decided path is honoured)"""
+        self._fn_depth = getattr(self, "_fn_depth", 0) + 1
+        saved = getattr(self, "_sym", 0)
+        self._sym = 0
+        try:
+            return self.eval(body.value, env)
+        except FnReturn as r:
+            return r.value
+        finally:
+            self._fn_depth -= 1
+            self._sym = saved
+
     def e_try(self, n, env):
-        return app("try", self.eval(n["e"], env))
+        v = self.eval(n["e"], env)
+        # Ok(x)? is x (the value on the path that continues; which error type an Err is converted to does not matter here)
+        if isinstance(v, tuple) and len(v) == 3 and v[0] == "ctor" and v[1] in ("Ok", "Some") and len(v[2]) == 1:
+            return v[2][0]
+        if getattr(self, "_sym", 0) == 0 and getattr(self, "_fn_depth", 0) > 0 and type(self).e_ret is SymEval.e_ret:
+            # a known Err(e)? / None? on a constant-decided path ends the function
+            if isinstance(v, tuple) and len(v) == 3 and v[0] == "ctor" and v[1] == "Err":
+                raise FnReturn(v)
+            if v == ("variant", "None"):
+                raise FnReturn(v)
+        return app("try", v)
 
     def e_letx(self, n, env):
         raise Unsupported("let-expression")
@@ -1132,6 +1277,11 @@ def subst(v, f):
 
 class NotEvaluable(Exception):
     pass
+
+
+class FnReturn(Exception):
+    def __init__(self, value):
+        self.value = value
 
 
 def evaluate(v, env):
